@@ -263,7 +263,7 @@ def gen_existing(rng, i):
         text = text.rstrip("\n")
     elif style == "doc-markers":
         text = "---\n" + text + "...\n"
-    return {"id": "mg%d" % i, "text": text, "doc": doc, "style": style, "fname": ".thailint.json" if style == "json" else ".thailint.yaml", "presets": [rng.choice(PRESETS + [None]), rng.choice(PRESETS + [None]), rng.choice(PRESETS)]}
+    return {"id": "mg%d" % i, "text": text, "doc": doc, "style": style, "fname": (".thailint.json" if i % 2 else "Lint.JSON") if style == "json" else ".thailint.yaml", "presets": [rng.choice(PRESETS + [None]), rng.choice(PRESETS + [None]), rng.choice(PRESETS)]}
 
 
 def flat(d, prefix=()):
@@ -283,6 +283,8 @@ def merge_history(case):
     os.makedirs(os.path.join(d, ".git"))
     fname = case.get("fname", ".thailint.yaml")
     outopt = ["--output", fname] if fname != ".thailint.yaml" else []
+    # a name that is not auto-discovered (the suffix in capitals is read as JSON all the same) is handed to the commands with --config
+    cfgopt = [] if fname.startswith(".thailint.") else ["--config", fname]
     path = os.path.join(d, fname)
     with open(path, "w", encoding="utf-8", newline="") as f:
         f.write(case["text"])
@@ -299,7 +301,7 @@ def merge_history(case):
         after = read(path)
         try:
             # (a file named *.json is read by the tool's JSON parser: judge it by that parser)
-            loaded = json.loads(after.decode("utf-8")) if fname.endswith(".json") else yaml.safe_load(after.decode("utf-8"))
+            loaded = json.loads(after.decode("utf-8")) if fname.lower().endswith(".json") else yaml.safe_load(after.decode("utf-8"))
             err = None
         except Exception as e:  # noqa: BLE001
             loaded, err = None, "%s: %s" % (type(e).__name__, str(e)[:150])
@@ -311,7 +313,7 @@ def merge_history(case):
     decoded = {}
     for sec, (cmdsec, key) in DECODE.items():
         cmd = {"stateless-class": "stateless-class", "method-property": "method-property"}.get(sec, sec)
-        r = runner.cli([cmd, "--format", "json", "st"], d)
+        r = runner.cli(cfgopt + [cmd, "--format", "json", "st"], d)
         vs = r.violations()
         decoded[sec] = {"exit": r.exit, "v": None if vs is None else sorted([v["rule_id"], v["file_path"], v["line"]] for v in vs), "err": r.err[-200:] if vs is None else ""}
     # reference: the user's own file alone
@@ -322,7 +324,7 @@ def merge_history(case):
     runner.write_tree(d2, probe)
     ref = {}
     for sec in DECODE:
-        r = runner.cli([sec, "--format", "json", "st"], d2)
+        r = runner.cli(cfgopt + [sec, "--format", "json", "st"], d2)
         vs = r.violations()
         ref[sec] = {"exit": r.exit, "v": None if vs is None else sorted([v["rule_id"], v["file_path"], v["line"]] for v in vs)}
     return {"steps": steps, "decoded": decoded, "ref": ref}
@@ -345,7 +347,7 @@ def preset_case(item):
         out["parse_err"] = str(e)[:150]
     out["cmds"] = {}
     for c in triggers.CMDS:
-        rr = runner.cli([c, "--format", "json", "."], d)
+        rr = runner.cli(([] if fname.startswith(".thailint.") else ["--config", fname]) + [c, "--format", "json", "."], d)
         out["cmds"][c] = {"exit": rr.exit, "err": rr.err[-200:] if rr.exit not in (0, 1) else ""}
     return out
 
@@ -415,7 +417,7 @@ def run(ctx):
                     {"history": case["id"], "argv": [sec, "--format", "json", "st"]}, dict(files, **{".thailint.yaml.after": v["steps"][-1]["after_text"] or ""}))
     # ---- (b)
     # (the generated file under its default name, and under the other auto-discovered name given with --output)
-    pitems = [(p, f) for f in (".thailint.yaml", ".thailint.json") for p in PRESETS + [None]]
+    pitems = [(p, f) for f in (".thailint.yaml", ".thailint.json", "Lint.JSON", "lint.YML") for p in PRESETS + [None]]
     for (preset, fname), o in zip(pitems, runner.pmap(preset_case, pitems, timeout=600)):
         ctx.evaluations += 1
         if not o.get("ok"):
